@@ -591,7 +591,7 @@ class World:
         was = self.ctl.engine
         self.ctl.engine = False
         try:
-            return self._as_user(p, lambda: user_op(p, root, op, a))
+            return self._as_user(p, lambda: user_op(p, root, op, a, ci_pair=any(not q.case_sensitive for q in self.provs)))
         finally:
             self.ctl.engine = was
 
@@ -649,7 +649,7 @@ def _is_under(parent, path):
     return path == parent or path.startswith(parent + "/")
 
 
-def user_op(p, root, op, a):
+def user_op(p, root, op, a, ci_pair=False):
     """Perform op if it is a legal user operation on the provider's current tree.  Legality is decided on
     the tree read through the public API, not by catching provider errors, so that a deleted plan item
     never changes what the remaining items mean.  Returns (performed, [payloads this op destroyed])."""
@@ -657,11 +657,20 @@ def user_op(p, root, op, a):
     if t is None:
         return False, []
 
+    # names that differ only in case count as the same name if EITHER side of the pair is case-insensitive: a pair with a
+    # case-insensitive member cannot hold both, so such a history has no converged state to reach
+    ci = ci_pair or not getattr(p, "case_sensitive", True)
+    folded = {k.lower(): k for k in t} if ci else {}
+
     def kind(rel):
         if rel == "":
             return "d"
         v = t.get(rel)
-        return v[0] if v else None
+        if v:
+            return v[0]
+        if ci and rel.lower() in folded:
+            return "x"      # occupied under another spelling (case-insensitive provider): neither free nor addressable as typed
+        return None
 
     def parent(rel):
         return rel.rsplit("/", 1)[0]
@@ -689,7 +698,8 @@ def user_op(p, root, op, a):
         p.delete(oid(rel))
     elif op == "rename":
         src, dst = a
-        if kind(src) != "f" or src == dst or kind(dst) is not None or kind(parent(dst)) != "d":
+        case_only = ci and src != dst and src.lower() == dst.lower() and dst not in t
+        if kind(src) != "f" or src == dst or (kind(dst) is not None and not case_only) or kind(parent(dst)) != "d":
             return False, []
         p.rename(oid(src), root + dst)
     elif op == "mkdir":
@@ -712,12 +722,16 @@ def user_op(p, root, op, a):
         p.rmtree(oid(rel))
     elif op == "rename_dir":
         src, dst = a
+        case_only = ci and src != dst and src.lower() == dst.lower() and dst not in t
+        if case_only and kind(src) == "d" and kind(parent(dst)) == "d":
+            p.rename(oid(src), root + dst)
+            return True, destroyed
         if kind(src) != "d" or src == "" or _is_under(src, dst) or kind(parent(dst)) != "d":
             return False, []
         if _is_under(src, parent(dst)):
             return False, []
         dk = kind(dst)
-        if dk == "f":
+        if dk in ("f", "x"):
             return False, []
         if dk == "d" and any(_is_under(dst, k) and k != dst for k in t):
             return False, []
